@@ -177,11 +177,13 @@ class Flow(object):
                     # a lambda inside a comprehension sees its variables
                     flow = getattr(self.scope, 'comp_flow', None)
                     cvars = {}  # type: dict[str, Name]
-                    while flow is not None and flow.hint in ('comp', 'walrus'):
+                    while flow is not None and flow.hint in ('comp', 'walrus', 'comp-join'):
                         for cv in flow._names:
                             if getattr(cv, 'comp_var', False):
                                 cvars.setdefault(cv.name, cv)
-                        flow = flow.parents[0] if len(flow.parents) == 1 else None  # type: ignore[assignment]
+                        # behind a nested comprehension (comp-join) the
+                        # enclosing one goes on with the first parent
+                        flow = flow.parents[0] if flow.parents else None  # type: ignore[assignment]
                     names.update((n, v) for n, v in iteritems(cvars)
                                  if n not in self.scope.locals)
                     return names
